@@ -54,12 +54,33 @@ def required(text):
     return out
 
 
-def check_text(P, text):
+FOREIGN_VECTOR = "AV:L/AC:H/Au:M/C:N/I:N/A:N/E:U/RL:OF/RC:UC/CDP:L/TD:N/CR:L/IR:L/AR:L"
+
+
+def check_text(P, text, mutate=None):
+    """mutate: what the caller does to the list it got back ('clear', 'pop', 'extend', 'reverse') before
+    asking again for the same text -- the second answer is judged like the first."""
     L = lib()
-    P.evaluations += 1
     case = {"text": text if len(text) < 4000 else text[:2000] + "...<%d chars>..." % len(text) + text[-500:]}
     if len(text) >= 4000:
         case["text_len"] = len(text)
+    res = _judge(P, text, case)
+    if mutate and isinstance(res, list) and FOREIGN_VECTOR not in text:
+        if mutate == "clear":
+            del res[:]
+        elif mutate == "pop" and res:
+            res.pop()
+        elif mutate == "extend":
+            res.append(L.CVSS2(FOREIGN_VECTOR))
+        elif mutate == "reverse":
+            res.reverse()
+        P.stratum("second-call-after-caller-mutated-the-first-result:" + mutate)
+        _judge(P, text, dict(case, second_call_after=mutate))
+
+
+def _judge(P, text, case):
+    L = lib()
+    P.evaluations += 1
     ok, res = obs.call(L.parser.parse_cvss_from_text, text)
     P.ev("total")
     if not ok:
@@ -102,10 +123,11 @@ def check_text(P, text):
         s = req[k]
         how = "len%d" % len(s) if len(s) <= 27 else "long"
         P.violation("complete", "C13:v%s:delimited-valid-vector-not-returned:%s" % (k[0], how if k[0] == "2" else k[1][5:8]), case, vector=s)
+    return res
 
 
 def check_case(P, case):
-    check_text(P, case["text"])
+    check_text(P, case["text"], case.get("second_call_after"))
 
 
 FILL = ["", " ", ".", ", ", "\n", " see ", "CVSS", "CVSS:", "CVSS:3", "CVSS:3.", "CVSS:3.1", "CVSS:3.1/", "CVSS:3.0/", "3.1/", "/", ":",
@@ -186,7 +208,7 @@ def shard(P, idx, n, seed):
         P.dist(t)
         for k in kinds:
             P.stratum("text-has:" + k)
-        check_text(P, t)
+        check_text(P, t, mutate=("clear", "pop", "extend", "reverse")[j % 4] if j % 3 == 0 else None)
         if j % 1999 == 0:
             P.sample({"text": t})
     if idx == 0:
